@@ -181,8 +181,9 @@ Proof. exact occupancy_exact_eq. Qed.
    identities; |off_v| = sqrt(.); for |delta| <= delta_psi: l|cos delta| + w|sin delta| <= l cos(delta_l) + w sin(delta_l)
    with delta_l = min(delta_psi, arctan(w/l)) (and with l, w swapped) and sin^2(delta/2) <= sin^2(delta_psi/2).
    C04_dev_len_saturated / _unsaturated below reduce the monotonicity fact to the subtraction theorem and
-   Cauchy-Schwarz.  Also not proved: that a point of a polygonal region rotated by -psi_d lies in shapely's bounds of
-   the rotated region (bounds = min / max over the vertices is proved for the model's [bbox]: C04_bbox_contains). *)
+   Cauchy-Schwarz.  Also not proved: that a point of a NON-convex polygonal region rotated by -psi_d lies in the bounds of
+   the rotated region, and that shapely's bounds are the min / max over the vertices (for the model's [bbox] and convex
+   regions: C04_bbox_contains, C04_region_vertex_admissible, C04_admissible_positions_convex). *)
 Theorem C04_enclosure_encloses_partial : forall orc b ref pm om L W C psi,
   enclosure1 (box_len b) (box_wid b) ref (padd (box_mid b) (pneg ref)) pm om orc = Ok (Rect L W C psi) ->
   orc_ok (padd (box_mid b) (pneg ref)) orc ->
@@ -225,6 +226,16 @@ Theorem C04_in_rect_convex : forall l w ctr c s x y t, 0 <= t -> t <= 1 ->
   in_rect l w ctr c s x -> in_rect l w ctr c s y ->
   in_rect l w ctr c s ((1 - t) * px x + t * px y, (1 - t) * py x + t * py y).
 Proof. exact in_rect_convex. Qed.
+(* admissible positions of a polygonal / rectangular region when the bounds are those of its vertices rotated by
+   -psi_d about the region's centre: every vertex, and every convex combination of admissible positions (so every
+   point of a convex region) *)
+Theorem C04_region_vertex_admissible : forall c0 cd sd vs b v,
+  bbox (map (rot_about c0 cd (- sd)) vs) = Some b -> List.In v vs -> pos_admissible (PMBox c0 b) cd sd v.
+Proof. exact region_vertex_admissible. Qed.
+Theorem C04_admissible_positions_convex : forall c0 b cd sd p q t, 0 <= t -> t <= 1 ->
+  pos_admissible (PMBox c0 b) cd sd p -> pos_admissible (PMBox c0 b) cd sd q ->
+  pos_admissible (PMBox c0 b) cd sd ((1 - t) * px p + t * px q, (1 - t) * py p + t * py q).
+Proof. exact pos_admissible_convex. Qed.
 (* the formula returns a rectangle with the reference orientation, and raises only for a ShapeGroup as position region;
    shape groups are handled member by member *)
 Theorem C04_enclosure_result : forall l_v w_v ref off pm om orc,
@@ -302,6 +313,8 @@ Print Assumptions C04_enclosure_encloses_polygon_partial.
 Print Assumptions C04_enclosure_encloses_rectangle_partial.
 Print Assumptions C04_bbox_contains.
 Print Assumptions C04_in_rect_convex.
+Print Assumptions C04_region_vertex_admissible.
+Print Assumptions C04_admissible_positions_convex.
 Print Assumptions C04_enclosure_result.
 Print Assumptions C04_enclosure_group_memberwise.
 Print Assumptions C04_dev_len_saturated.
